@@ -133,8 +133,8 @@ def obligations():
             if g == 'products' and N == 3: roots += [Q + pfx + '_cross'] + ([Q + pfx + '_cross_free', Q + pfx + '_cross_member'] if sc == 'int' else [])
             obs.append(Ob(id='C19.%s.%s' % (pfx, g), props=['C19'], quick_for=['C19'] if pfx in ('i3', 'd3') else [], tu='vector', cfg='plain', tier='U', roots=roots,
                           harness=pre + 'void harness(void) {\n' + body + '}\n', unwind=N + 2, adaptive_unwind=False, timeout=900,
-                          flags=((['--div-by-zero-check', '-no:--signed-overflow-check'] + (['--z3'] if g == 'muldiv' else []) if g in ('muldiv', 'products') else ['--div-by-zero-check']) if sc == 'int' else []),
+                          flags=((['--div-by-zero-check', '-no:--signed-overflow-check'] + (['--z3'] if g == 'muldiv' else []) if g in ('muldiv', 'products') else ['--div-by-zero-check']) if sc == 'int' else (['--cvc5', '--fpa'] if g in ('addsub', 'muldiv', 'products', 'norms') else [])),
                           note='VectorT<%s,%d> %s operations against their component-wise definitions, all component values%s' % (sc, N, g, ' within the stated no-overflow range' if sc == 'int' else ' (every bit pattern)')))
     obs.append(Ob(id='C19.convert', props=['C19'], quick_for=['C19'], tu='vector', cfg='plain', tier='U', roots=[Q + f for f in ('i3_make', 'd3_from_i3', 'd3_assign_i3', 'i3_from_d3', 'f3_from_d3', 'i3_from_ptr', 'd4_homogenized')],
-                  harness=EXTRA, unwind=6, adaptive_unwind=False, timeout=900, note='conversions between scalar types, component/iterator constructors, homogenized()'))
+                  harness=EXTRA, unwind=6, adaptive_unwind=False, timeout=900, flags=['--z3', '--fpa'], note='conversions between scalar types, component/iterator constructors, homogenized()'))
     return obs
